@@ -3,11 +3,13 @@
 package olareg
 
 import (
+	"context"
 	"time"
 
 	"github.com/opencontainers/go-digest"
 
 	"github.com/olareg/olareg/internal/store"
+	"github.com/olareg/olareg/types"
 )
 
 // VerifGC runs one repository collection synchronously.
@@ -38,4 +40,23 @@ func (s *Server) VerifUploadSetUsed(repo, sessionID string, t time.Time) bool {
 // VerifUploadCount returns the number of open upload sessions of a repository.
 func (s *Server) VerifUploadCount(repo string) int {
 	return store.VerifUploadCount(s.store, repo)
+}
+
+// VerifIndexEntries lists the top-level entries of a repository's index as (digest, tag, referrers subject);
+// child records are not included. Read only.
+func (s *Server) VerifIndexEntries(repo string) ([][3]string, error) {
+	r, err := s.store.RepoGet(context.Background(), repo)
+	if err != nil {
+		return nil, err
+	}
+	defer r.Done()
+	idx, err := r.IndexGet()
+	if err != nil {
+		return nil, err
+	}
+	out := make([][3]string, 0, len(idx.Manifests))
+	for _, d := range idx.Manifests {
+		out = append(out, [3]string{d.Digest.String(), d.Annotations[types.AnnotRefName], d.Annotations[types.AnnotReferrerSubject]})
+	}
+	return out, nil
 }
